@@ -201,6 +201,28 @@ def oracle_pca_wav(c, o):
     return None
 
 
+
+def translate(ctx):
+    """Regenerate Gen/fourier_gen.v (index arithmetic of CartesianSamplingOp, shift/transform nesting of FastFourierOp) and re-check
+    the obligations gen_* = model."""
+    from translate import fourier
+    out = vlib.COQ / 'Gen' / 'fourier_gen.v'
+    out.parent.mkdir(exist_ok=True)
+    ok, why = fourier.write(out)
+    ctx.extra.setdefault('coverage', {})['translator_available'] = ok
+    if not ok:
+        ctx.notes.append(f'translator harness/translate/fourier.py failed closed ({why})')
+        ctx.problem('proof', 'gen_fourier', None, f'CartesianSamplingOp.py / FastFourierOp.py are outside the translated subset ({why}): the regenerated obligations cannot be stated')
+        return
+    ctx.obligations += fourier.N_OBLIGATIONS
+    rc, so, se = vlib.coqc_file(out)
+    if rc == 0:
+        ctx.discharged += fourier.N_OBLIGATIONS
+    else:
+        ctx.problem('proof', 'gen_fourier', None,
+                    'regenerated obligation gen_*_ok (sampling index / FFT shift nesting == model) no longer proves: ' + (se or so)[-700:])
+
+
 FAMILIES = [
     Family('pad_centre', gen_sizes, impl_sizes, coq_sizes, PREAMBLE, cmp_sizes, oracle_sizes, nontrivial=lambda c: c['old'] != c['new'],
            theorem='C09_pad_centre, C09_crop_after_pad'),
